@@ -4,6 +4,9 @@ Value specs (JSON-able, used in replays):
   ["none"] ["undef"] ["bool", b] ["int", hex, sub] ["float", float.hex()|"nan"|"inf"|"-inf", sub]
   ["str", [code points], sub] ["bytes", [ints]] ["list", [spec..]] ["tuple", [spec..]] ["dict", [[key cps, spec]..]]
   ["obj", id, builtin, [code points of str(o)]]
+  ["pyenum", class, member name]  ["pyflag", class, int]   members of the Python Enum classes Color/Other/Perm/Num
+      below (Flag combinations by value).  In the model a non-int member is an object compared by identity whose
+      str() is str(member); a member of the IntEnum Num is the int it is.
 `sub` = 1 builds an instance of a trivial subclass (class I(int): pass) of the base type.
 """
 from __future__ import annotations
@@ -32,6 +35,17 @@ ASSUMPTIONS = [
 ]
 
 
+
+def rp(x, n=80):
+    """repr that cannot fail or explode (huge ints exceed the interpreter's int->str limit)."""
+    try:
+        if isinstance(x, int) and not isinstance(x, bool) and abs(x) >= 1 << 200:
+            return f"<int of {x.bit_length()} bits, {hex(x)[:24]}...>"
+        return repr(x)[:n]
+    except Exception as e:  # noqa: BLE001
+        return f"<{type(x).__name__}: repr raised {type(e).__name__}>"
+
+
 # --------------------------------------------------------------------------- spec -> python / wire
 
 class I(int):
@@ -54,6 +68,48 @@ class Custom:
 
     def __str__(self):
         return self._s
+
+
+import enum as _enum
+
+
+class Color(_enum.Enum):
+    RED = 1
+    GREEN = 2
+    BLUE = 3
+
+
+class Other(_enum.Enum):        # a foreign Enum: same member name and value as Color.RED, yet a different value
+    RED = 1
+    X = "A"
+
+
+class Perm(_enum.Flag):
+    R = 1
+    W = 2
+    X = 4
+
+
+class Num(_enum.IntEnum):       # members ARE ints: Num.ONE == 1, hash(Num.ONE) == hash(1)
+    ONE = 1
+    TWO = 2
+
+
+PYENUMS = {"Color": Color, "Other": Other, "Perm": Perm, "Num": Num}
+_MEMBER_IDS = {}
+
+
+def member_id(m):
+    """stable identity number of a (non-int) Enum member or Flag combination."""
+    k = (type(m).__name__, m.value)
+    if k not in _MEMBER_IDS:
+        _MEMBER_IDS[k] = 1000 + 50 * sorted(PYENUMS).index(type(m).__name__) + (m.value if isinstance(m.value, int) else 40)
+    return _MEMBER_IDS[k]
+
+
+def py_member(spec):
+    cls = PYENUMS[spec[1]]
+    return cls[spec[2]] if spec[0] == "pyenum" else cls(spec[2])
 
 
 class Registry:
@@ -97,6 +153,8 @@ def to_py(spec, reg):
         return {"".join(map(chr, kk)): to_py(x, reg) for kk, x in spec[1]}
     if k == "obj":
         return reg.get(spec[1], spec[2], "".join(map(chr, spec[3])))
+    if k in ("pyenum", "pyflag"):
+        return py_member(spec)
     raise ValueError(spec)
 
 
@@ -164,6 +222,11 @@ def to_wire(spec):
         return out
     if k == "obj":
         return [9, spec[1], 1 if spec[2] else 0] + enc_text(spec[3])
+    if k in ("pyenum", "pyflag"):
+        m = py_member(spec)
+        if isinstance(m, int):
+            return [3] + enc_Z(int(m))
+        return [9, member_id(m), 0] + enc_text([ord(c) for c in str(m)])
     raise ValueError(spec)
 
 
@@ -273,6 +336,7 @@ def edge_values(thorough=False):
              ["dict", []], ["dict", [[[97], ispec(1)]]], ["dict", [[[97], ["list", [ispec(1)]]], [[98], ["none"]]]]]
     vals += [["tuple", []], ["tuple", [ispec(1)]], ["tuple", [ispec(1), ispec(1)]], ["tuple", [["list", [ispec(1)]]]],
              ["tuple", [sspec("1")]], ["list", [["tuple", [ispec(1)]]]]]
+    vals += [["pyenum", "Color", "RED"], ["pyenum", "Num", "TWO"], ["pyflag", "Perm", 3], ["pyenum", "Other", "X"]]
     vals += [["obj", 101, 0, [ord(c) for c in "custom"]], ["obj", 102, 0, [49, 50]], ["obj", 103, 0, []],
              ["obj", 104, 1, []], ["obj", 105, 0, [ord(c) for c in "1e3"]], ["obj", 106, 0, [0x661]]]
     return vals
@@ -374,6 +438,10 @@ def enum_pool():
              ["list", [["list", [ispec(1)]]]], ["tuple", [["list", []]]], ["tuple", [sspec("A")]],
              ["tuple", [fspec(math.nan)]], ["tuple", [["none"]]], ["tuple", [["dict", [[[97], ispec(1)]]]]],
              ["dict", [[[97], ["tuple", [ispec(1)]]]]], ["dict", [[[97], ["list", [ispec(1)]]]]],
+             ["pyenum", "Color", "RED"], ["pyenum", "Color", "GREEN"], ["pyenum", "Color", "BLUE"],
+             ["pyenum", "Other", "RED"], ["pyenum", "Other", "X"], ["pyenum", "Perm", "R"], ["pyenum", "Perm", "W"],
+             ["pyflag", "Perm", 3], ["pyflag", "Perm", 0], ["pyflag", "Perm", 7], ["pyenum", "Num", "ONE"],
+             ["pyenum", "Num", "TWO"], sspec("RED"), sspec("R"), sspec("R|W"), sspec("ONE"), ispec(3),
              ["obj", 201, 0, [65]], ["obj", 202, 0, [65]], ["obj", 203, 1, []], ["obj", 204, 1, []], ispec(1, 1),
              fspec(1.0, 1)]
         ENUM_POOL = P
@@ -437,27 +505,62 @@ def same_meaning(name, a, b):
     return type(a) is type(b) and a == b
 
 
+VIEWS = ["direct", "leaf", "list", "async"]
+
+
 class Runner:
     def __init__(self, ck, model):
+        import asyncio
         self.ck, self.m = ck, model
         self.types = scalar_types()
         self.reg = Registry()
-        from graphql import build_schema
-        self.schema = build_schema("type Query { Int: Int Float: Float String: String Boolean: Boolean ID: ID }")
-        from graphql import parse
-        self.doc = parse("{ Int Float String Boolean ID }")
+        from graphql import build_schema, parse
+        fields = " ".join(f"{n}: {n} {n}_l: [{n}] {n}_a: {n}" for n in SCALARS)
+        self.schema = build_schema("type Query { " + fields + " }")
+        self.doc = parse("{ " + " ".join(f"{n} {n}_l {n}_a" for n in SCALARS) + " }")
+        self.loop = asyncio.new_event_loop()
+
+    def guarded(self, rk, replay, fn):
+        """an answer of the implementation the harness cannot digest is a violation, never a harness crash."""
+        try:
+            fn()
+        except Exception as e:  # noqa: BLE001
+            import traceback
+            where = traceback.extract_tb(e.__traceback__)[-1]
+            self.ck.violation(rk, f"the harness could not process the implementation's answer ({type(e).__name__} at "
+                                  f"{where.name}:{where.lineno}) for {rp(replay.get('value'), 120)}",
+                              dict(replay, relation="implementation answer of an unexpected shape"))
 
     def leaf_results(self, v):
-        """{scalar: ('ok', data) | ('err', True)} through execute_sync."""
-        from graphql import execute_sync
-        res = execute_sync(self.schema, self.doc, {n: v for n in SCALARS})
-        bad = {e.path[0] for e in (res.errors or []) if e.path}
+        """{(scalar, view): ('ok', data) | ('err', True) | ('raised', what)} through execute():
+        view leaf = plain field, list = the only item of a [T] field, async = field with an async resolver."""
+        import inspect
+
+        from graphql import execute
+
+        async def later(*_a, **_k):
+            return v
+        root = {}
+        for n in SCALARS:
+            root[n] = v
+            root[n + "_l"] = [v]
+            root[n + "_a"] = later
+        res = execute(self.schema, self.doc, root)
+        if inspect.isawaitable(res):
+            res = self.loop.run_until_complete(res)
+        bad = {tuple(e.path) for e in (res.errors or []) if e.path}
+        data = res.data or {}
         out = {}
         for n in SCALARS:
-            if n in bad:
-                out[n] = ("err", True)
+            out[(n, "leaf")] = ("err", True) if (n,) in bad else ("ok", data.get(n))
+            out[(n, "async")] = ("err", True) if (n + "_a",) in bad else ("ok", data.get(n + "_a"))
+            lst = data.get(n + "_l")
+            if (n + "_l", 0) in bad:
+                out[(n, "list")] = ("err", True)
+            elif (n + "_l",) in bad or not (isinstance(lst, list) and len(lst) == 1):
+                out[(n, "list")] = ("raised", f"list field completed to {rp(lst, 60)}")
             else:
-                out[n] = ("ok", (res.data or {}).get(n))
+                out[(n, "list")] = ("ok", lst[0])
         return out
 
     def scalar_batch(self, specs):
@@ -473,13 +576,13 @@ class Runner:
             orc = oracles(v)
             for si, name in enumerate(SCALARS):
                 cases.append([1, si, 0] + orc + w)
-                meta.append((spec, name, "direct"))
                 cases.append([1, si, 1] + orc + w)
-                meta.append((spec, name, "leaf"))
+                meta.append((spec, name))
         outs = self.m.run_batch(cases)
         leaf_cache = {}
         incases, inmeta = [], []
-        for (spec, name, how), out in zip(meta, outs):
+
+        def one(spec, name, how, out):
             key = json.dumps(spec)
             v = to_py(spec, self.reg)
             t = self.types[name]
@@ -489,64 +592,71 @@ class Runner:
             else:
                 if key not in leaf_cache:
                     try:
+                        leaf_cache.clear()          # one entry: the views of one value follow each other
                         leaf_cache[key] = self.leaf_results(v)
                     except Exception as e:  # noqa: BLE001
-                        leaf_cache[key] = {n: ("raised", type(e).__name__) for n in SCALARS}
-                got = leaf_cache[key][name]
+                        leaf_cache[key] = {(n, h): ("raised", type(e).__name__) for n in SCALARS for h in VIEWS}
+                got = leaf_cache[key][(name, how)]
             want = norm_model(out, as_float)
-            nontrivial = spec[0] in ("bool", "int", "float", "str", "obj")
+            nontrivial = spec[0] in ("bool", "int", "float", "str", "obj", "pyenum", "pyflag")
             ck.note_case((name, how, key), nontrivial=nontrivial,
                          sample={"scalar": name, "value": spec, "via": how} if nontrivial and len(key) < 80 else None)
             ck.count(f"{how}:{name}:{'ok' if want[0] == 0 else 'error'}")
-            ck.count("value_kind:" + spec[0])
-            rk = f"{name}:{how}:{key[:300]}"
-            replay = {"relation": "", "scalar": name, "via": how, "value": spec}
+            if how == "direct":
+                ck.count("value_kind:" + spec[0])
             if got[0] == "raised":
-                ck.violation(rk, f"execute_sync raised {got[1]} for {name} field returning {short(spec)}",
+                ck.violation(rk, f"execute raised / misbehaved ({got[1]}) for {name} field ({how}) returning {short(spec)}",
                              dict(replay, relation="execution never raises"))
-                continue
+                return
             if got[0] == "err":
                 if not got[1]:
                     ck.count("error_not_graphql_error:" + got[2])
                 if want != [1]:
                     ck.violation(rk, f"{name} ({how}) rejects {short(spec)}; the model yields {want}",
                                  dict(replay, relation="impl = model (correspondence)", impl="error", model=want))
-                continue
+                return
             r = got[1]
             # direct predicates of the property on the implementation's result
-            if not (how == "leaf" and r is None and spec[0] in ("none", "undef")):
+            if not (how != "direct" and r is None and spec[0] in ("none", "undef")):
                 if not domain_ok(name, r):
-                    ck.violation(rk, f"{name} ({how}) yields {r!r:.80} ({type(r).__name__}) for {short(spec)}: "
+                    ck.violation(rk, f"{name} ({how}) yields {rp(r, 80)} ({type(r).__name__}) for {short(spec)}: "
                                      f"outside the value domain of {name}",
-                                 dict(replay, relation="result within the value domain", impl=repr(r)[:200]))
-                    continue
+                                 dict(replay, relation="result within the value domain", impl=rp(r, 200)))
+                    return
                 back = call_in(t, r)
                 if back[0] != "ok" or not same_meaning(name, r, back[1]):
-                    ck.violation(rk, f"{name} emits {r!r:.80} for {short(spec)} but its input coercion gives "
-                                     f"{back!r:.80}",
+                    ck.violation(rk, f"{name} emits {rp(r, 80)} for {short(spec)} but its input coercion gives "
+                                     f"{rp(back, 80)}",
                                  dict(replay, relation="emitted value re-accepted with the same meaning",
-                                      impl=repr(back)[:200]))
-                    continue
+                                      impl=rp(back, 200)))
+                    return
                 if name in ("Float", "Int", "ID") and spec[0] in ("int", "float") and not precision_kept(name, v, r):
-                    ck.violation(rk, f"{name} emits {r!r:.80} for {short(spec)}: numeric value changed",
-                                 dict(replay, relation="no silent precision loss", impl=repr(r)[:200]))
-                    continue
+                    ck.violation(rk, f"{name} emits {rp(r, 80)} for {short(spec)}: numeric value changed",
+                                 dict(replay, relation="no silent precision loss", impl=rp(r, 200)))
+                    return
                 if how == "direct":
                     incases.append([2, SCALARS.index(name)] + oracles(r) + (enc_result(r) or [0]))
                     inmeta.append((name, r, back[1], rk, replay))
             enc = enc_result(r, as_float)
-            got_w = [0] + enc if enc is not None else ["unencodable", repr(r)[:100]]
+            got_w = [0] + enc if enc is not None else ["unencodable", rp(r, 100)]
             if got_w != want:
-                ck.violation(rk, f"{name} ({how}) gives {r!r:.80} for {short(spec)}; the model gives "
+                ck.violation(rk, f"{name} ({how}) gives {rp(r, 80)} for {short(spec)}; the model gives "
                                  f"{'an error' if want == [1] else want[:40]}",
                              dict(replay, relation="impl = model (correspondence)", impl=got_w[:200], model=want[:200]))
+
+        for k, (spec, name) in enumerate(meta):
+            out_direct, out_leaf = outs[2 * k], outs[2 * k + 1]
+            for how in VIEWS:
+                rk = f"{name}:{how}:{json.dumps(spec)[:300]}"
+                replay = {"relation": "", "scalar": name, "via": how, "value": spec}
+                self.guarded(rk, replay, lambda: one(spec, name, how, out_direct if how == "direct" else out_leaf))
         # input coercion of the emitted values: model vs implementation
         outs = self.m.run_batch(incases)
         for (name, r, back, rk, replay), out in zip(inmeta, outs):
             enc = enc_result(back, name == "Float")
             if [0] + (enc or []) != norm_model(out, name == "Float"):
-                ck.violation("in:" + rk, f"{name} input coercion of {r!r:.80} gives {back!r:.80}; model {out[:40]}",
-                             dict(replay, relation="input coercion impl = model", impl=repr(back)[:200], model=out[:200]))
+                ck.violation("in:" + rk, f"{name} input coercion of {rp(r, 80)} gives {rp(back, 80)}; model {out[:40]}",
+                             dict(replay, relation="input coercion impl = model", impl=rp(back, 200), model=out[:200]))
         ck.count("input_coercions_compared", len(incases))
 
     def input_batch(self, specs):
@@ -575,7 +685,7 @@ class Runner:
                 got_w = [0] + enc if enc is not None else ["unencodable"]
             if got_w != want:
                 ck.violation(f"in:{name}:{key[:300]}",
-                             f"{name} input coercion of {short(spec)}: impl {got!r:.80}, model {want[:40]}",
+                             f"{name} input coercion of {short(spec)}: impl {rp(got, 80)}, model {want[:40]}",
                              {"relation": "input coercion impl = model", "scalar": name, "via": "input", "value": spec,
                               "impl": got_w[:200], "model": want[:200]})
 
@@ -586,7 +696,7 @@ class Runner:
                              execute_sync, parse)
         ck = self.ck
         cases, meta = [], []
-        for ei, (members, values) in enumerate(enums):
+        for ei, (members, values, _ctor) in enumerate(enums):
             hdr = [len(members)]
             for n, sp in members:
                 hdr += enc_text([ord(c) for c in n]) + to_wire(sp)
@@ -598,18 +708,18 @@ class Runner:
         outs = self.m.run_batch(cases)
         built = {}
         doc = parse("{ e }")
-        for (ei, sp, how), out in zip(meta, outs):
-            members, _ = enums[ei]
+        def one(ei, sp, how, out):
+            members, _, ctor = enums[ei]
             if ei not in built:
-                et = GraphQLEnumType("E", {n: GraphQLEnumValue(to_py(s, self.reg)) for n, s in members})
+                if ctor is None:
+                    et = GraphQLEnumType("E", {n: GraphQLEnumValue(to_py(s, self.reg)) for n, s in members})
+                else:   # built from a Python Enum class
+                    et = GraphQLEnumType("E", PYENUMS[ctor[0]], names_as_values=ctor[1])
                 sch = GraphQLSchema(GraphQLObjectType("Query", {"e": GraphQLField(et)}))
                 built[ei] = (et, sch)
             et, sch = built[ei]
             v = to_py(sp, self.reg)
             names = [n for n, _ in members]
-            key = json.dumps([members, sp])
-            rk = f"enum:{how}:{key[:300]}"
-            replay = {"relation": "", "enum": members, "value": sp, "via": how}
             if how == "direct":
                 got = call_out(et, v)
             else:
@@ -619,11 +729,13 @@ class Runner:
                 except Exception as e:  # noqa: BLE001
                     ck.violation(rk, f"execute_sync raised {type(e).__name__} for an enum field returning {short(sp)}",
                                  dict(replay, relation="execution never raises"))
-                    continue
+                    return
             found = out[0] == 0 and out != [0, 0]
-            ck.note_case(("enum", how, key), nontrivial=found or sp[0] in ("list", "dict", "tuple"),
+            ck.note_case(("enum", how, key), nontrivial=found or sp[0] in ("list", "dict", "tuple", "pyenum", "pyflag"),
                          sample={"enum": members, "value": sp} if found and len(key) < 100 else None)
             ck.count(f"enum:{how}:{'ok' if out[0] == 0 else 'error'}")
+            if sp[0] in ("pyenum", "pyflag"):
+                ck.count("enum:python_enum_member_as_result")
             if got[0] == "err":
                 if not got[1]:
                     ck.count("error_not_graphql_error:" + got[2])
@@ -632,9 +744,9 @@ class Runner:
                 r = got[1]
                 if not (how == "leaf" and r is None and sp[0] in ("none", "undef")):
                     if not (isinstance(r, str) and r in names):
-                        ck.violation(rk, f"enum {members} yields {r!r:.60} for {short(sp)}: not one of its value names",
-                                     dict(replay, relation="enum result is a declared name", impl=repr(r)[:100]))
-                        continue
+                        ck.violation(rk, f"enum {edesc} yields {rp(r, 60)} for {short(sp)}: not one of its value names",
+                                     dict(replay, relation="enum result is a declared name", impl=rp(r, 100)))
+                        return
                     back = call_in(et, r)
                     internal = dict((n, s) for n, s in members)[r]
                     ok = back[0] == "ok"
@@ -643,16 +755,24 @@ class Runner:
                         from graphql.pyutils import Undefined
                         ok = (iv == v) or ((iv is None or iv is Undefined) and v == r)
                     if not ok:
-                        ck.violation(rk, f"enum {members} emits {r!r} for {short(sp)} but input coercion of {r!r} "
-                                         f"gives {back!r:.60} (internal {short(internal)})",
+                        ck.violation(rk, f"enum {edesc} emits {rp(r, 200)} for {short(sp)} but input coercion of {rp(r, 200)} "
+                                         f"gives {rp(back, 60)} (internal {short(internal)})",
                                      dict(replay, relation="emitted name re-accepted with the same meaning",
-                                          impl=repr(back)[:100]))
-                        continue
+                                          impl=rp(back, 100)))
+                        return
                 enc = enc_result(r)
                 got_w = [0] + enc if enc is not None else ["unencodable"]
             if got_w != out:
-                ck.violation(rk, f"enum {members} ({how}) on {short(sp)}: impl {got!r:.60}, model {out[:30]}",
+                ck.violation(rk, f"enum {edesc} ({how}) on {short(sp)}: impl {rp(got, 60)}, model {out[:30]}",
                              dict(replay, relation="impl = model (correspondence)", impl=got_w[:100], model=out[:100]))
+
+        for (ei, sp, how), out in zip(meta, outs):
+            members, _, ctor = enums[ei]
+            edesc = f"{members}" + (f" built from Python enum {ctor[0]} (names_as_values={ctor[1]})" if ctor else "")
+            key = json.dumps([members, ctor, sp])
+            rk = f"enum:{how}:{key[:300]}"
+            replay = {"relation": "", "enum": members, "ctor": ctor, "value": sp, "via": how}
+            self.guarded(rk, replay, lambda: one(ei, sp, how, out))
 
     def eq_batch(self, pairs):
         """Python == / hashability vs pyeq / hashable (the enum model's only assumption about values)."""
@@ -678,7 +798,7 @@ class Runner:
         outs = self.m.run_batch([[0] + w for w in ws])
         bad = [s for s, w, o in zip(specs, ws, outs) if w != o]
         if bad:
-            self.ck.proof_breaks.append(f"wire echo failed on {bad[0]!r:.200}")
+            self.ck.proof_breaks.append(f"wire echo failed on {rp(bad[0], 200)}")
         self.ck.count("echo", len(ws))
         return not bad
 
@@ -706,7 +826,22 @@ def gen_enums(rng, n_enums, n_values):
         members = [("ABCDEF"[i], rng.choice(pool)) for i in range(k)]
         values = [rng.choice(pool) for _ in range(n_values)]
         values += [sp for _, sp in members[:2]]
-        out.append((members, values))
+        out.append((members, values, None))
+    # GraphQL enums built from a Python Enum class, in the three names_as_values modes
+    for cname in ("Color", "Perm", "Num", "Other"):
+        cls = PYENUMS[cname]
+        for mode in (False, True, None):
+            members = []
+            for n, m in cls.__members__.items():
+                if mode is True:
+                    sp = sspec(n)
+                elif mode is None:
+                    sp = ["pyenum", cname, n]
+                else:
+                    sp = ispec(m.value) if isinstance(m.value, int) else sspec(m.value)
+                members.append((n, sp))
+            values = [sp for sp in pool if sp[0] in ("pyenum", "pyflag")] + [rng.choice(pool) for _ in range(n_values)]
+            out.append((members, values, (cname, mode)))
     return out
 
 
@@ -730,12 +865,15 @@ def run(tier):
     ck.rule = ("(A) every edge value (bool; ints around 2^31, 2^53, 2^1024, the 4300-digit str limit; floats incl. -0.0, nan, "
                "inf, subnormals, 1e308; numeric-looking/whitespace/non-ASCII-digit/empty strings; bytes; lists; dicts; "
                f"objects with __str__; None; Undefined; int/float/str subclasses) and {n_rand} random values x 5 built-in "
-               "scalars: coerce_output_value called directly and through execute_sync (complete_leaf_value) vs the "
+               "scalars: coerce_output_value called directly and through execute (complete_leaf_value) as a plain field, as the "
+               "item of a list field and as the result of an async resolver vs the "
                "extracted model: ok/error and exact value; on every emitted value the property predicates (domain, "
                "JSON-representable, re-accepted by coerce_input_value with the same meaning, numeric value unchanged) "
                "and the model of the input coercer; (B) input coercers on all values; (C) random enums over a pool of "
                "colliding internal values (True/1/1.0, -0.0, nan, None, Undefined, unhashable lists/dicts, tuples vs lists with equal items, tuples holding unhashable items, objects): "
-               "coerce_output_value direct and through execute_sync vs model, result a declared name, re-accepted; "
+               "coerce_output_value direct and through execute_sync vs model, result a declared name, re-accepted; the pool "
+               "also holds members of Python Enum/Flag/IntEnum classes (right class, foreign class, Flag combinations, IntEnum "
+               "members equal to internal ints) and 12 enums are built from those classes (names_as_values False/True/None); "
                "(D) Python == and hashability vs pyeq on all pool pairs. non-trivial = value is a bool/int/float/str/"
                "custom object (scalars), or the enum lookup finds a name or takes the unhashable path")
     if not R.echo(specs[:400] + enum_pool()):
@@ -764,7 +902,8 @@ def replay(path):
         else:
             R.scalar_batch([d["value"]])
     elif "enum" in d:
-        R.enum_batch([([tuple(x) for x in d["enum"]], [d["value"]])])
+        ctor = d.get("ctor")
+        R.enum_batch([([tuple(x) for x in d["enum"]], [d["value"]], tuple(ctor) if ctor else None)])
     elif "a" in d:
         R.eq_batch([(d["a"], d["b"])])
     for key, what, _ in ck.violations:
